@@ -407,28 +407,36 @@ def run_shard(shard, tier, rec):
                 rec.sample(dict(world=wk, start=describe(space, g0), target=describe(space, g1)), limit=3)
 
 
-F11_SIG = ("self-referential relationship: a flush after which a persistent row is an ancestor of one of its former ancestors "
-           "(parent/child direction reversed, final state acyclic and valid) raises CircularDependencyError")
-
-
-def _ancestors(g, ln, n):
-    out, k = [], g["par"].get((ln, n))
-    while k is not None and k not in out:
-        out.append(k)
-        k = g["par"].get((ln, k))
-    return out
+F11_SIG = ("self-referential relationship: a flush whose old and new parent links together form a loop (simplest case: a parent and its "
+           "child swap roles; the final state itself is acyclic and valid) raises CircularDependencyError")
 
 
 def reversal(space, g0, g1):
-    """some b was an ancestor of a in g0 and a is an ancestor of b in g1 (both rows exist before and after)"""
-    both = set(g0["present"]) & set(g1["present"])
+    """the union of the child->parent links of g0 and g1 has a directed cycle"""
     for l in space.spec.links:
         if space.spec.root(l.holder) != space.spec.root(l.target):
             continue
-        for a in both:
-            for b in _ancestors(g0, l.name, a):
-                if b in both and a in _ancestors(g1, l.name, b):
+        edges = {}
+        for g in (g0, g1):
+            for (ln, a), b in g["par"].items():
+                if ln == l.name and b is not None:
+                    edges.setdefault(a, set()).add(b)
+        state = {}
+
+        def visit(n):
+            if state.get(n) == 1:
+                return True
+            if state.get(n) == 2:
+                return False
+            state[n] = 1
+            for m_ in edges.get(n, ()):
+                if visit(m_):
                     return True
+            state[n] = 2
+            return False
+
+        if any(visit(n) for n in list(edges)):
+            return True
     return False
 
 
